@@ -368,6 +368,7 @@ bool SimpleEventLoop::execute_one_step(int task_id) {
 
     // 新しいスコープをpush
     interpreter_.push_scope();
+    interpreter_.current_scope().is_task_frame = true;
     auto resume_positions = task.statement_positions
                                 ? task.statement_positions
                                 : task_scope_copy.statement_positions;
